@@ -57,3 +57,53 @@ package commonmark
 //@   loop 1: invariant[uri] 4 <= end && end <= len(text) && text[0] == '<'
 //@   loop 1: decreases len(text) - end
 //@   serves C13, C04
+
+// ---------------------------------------------------------------------------
+// The tokeniser (C13, C02).  addToRoot appends a node to the root under
+// construction; every call site in parse / parseBackslash / parseDelimiterRun
+// carries the node invariant of the node it creates as an obligation: the
+// shape of the text its span selects (C13).  The functions that restructure the
+// tree (links, emphasis, code spans, raw HTML) are abstracted; they cannot
+// assign inlineState.source (structural check).
+// ---------------------------------------------------------------------------
+
+//@ func (*inlineState).addToRoot
+//@   requires !isnil(state) && !isnil(newNode) && !isnil(state.root) && state.parentMap != nil
+//@   modifies map state.parentMap, state.root.children, state.root.children[len(state.root.children):cap(state.root.children)], alloc
+//@   serves C13, C04
+
+//@ -- the shape part of the node invariant for the kinds the tokeniser creates directly
+//@ spec LeafShape(n *Inline, s []byte) bool =
+//@       (n.kind == CharacterReferenceKind ==> CharRefSafe(s, n.span.Start, n.span.End))
+//@    && (n.kind == SoftLineBreakKind ==> (LineEndingText(s, n.span.Start, n.span.End) && n.span.End > n.span.Start))
+//@    && (n.kind == HardLineBreakKind ==> (HardBreakText(s, n.span.Start, n.span.End) || (n.span.End == n.span.Start + 1 && s[n.span.Start] == '\\')))
+//@    && (n.kind == AutolinkKind ==> (n.span.Start + 2 <= n.span.End && s[n.span.Start] == '<' && s[n.span.End - 1] == '>'
+//@          && len(n.children) == 1 && !isnil(n.children[0]) && n.children[0].kind == TextKind
+//@          && n.children[0].span.Start == n.span.Start + 1 && n.children[0].span.End == n.span.End - 1))
+
+//@ func (*InlineParser).parseBackslash
+//@   requires !isnil(state) && !isnil(state.root) && state.parentMap != nil && 0 <= start && start < len(state.source) && state.source[start] == '\\'
+//@   modifies map state.parentMap, state.root.children, state.root.children[len(state.root.children):cap(state.root.children)], state.ignoreNextIndent, alloc
+//@   callsite (*inlineState).addToRoot: requires[shape] LeafShape($1, state.source)
+//@   callsite (*inlineState).addToRoot: requires[kind] $1.kind == TextKind || $1.kind == HardLineBreakKind
+//@   ensures[progress] end > start && end <= start + 2
+//@   nosafety index the cursor stays inside the unparsed run (assumption A-C02-1, DESIGN 7.2)
+//@   nosafety nil the unparsed nodes of a block are never nil (assumption A-NODEINV, C05)
+//@   serves C13, C04
+
+//@ func (*InlineParser).parse
+//@   requires !isnil(container)
+//@   modifies everything
+//@   havoccall (*InlineParser).parseDelimiterRun, (*InlineParser).parseEndBracket, (*InlineParser).parseCodeSpan, (*InlineParser).collectCodeSpan, parseHTMLTag, nodeIndexForPosition, (*InlineParser).processEmphasis keeps inlineState.source, inlineState.root, inlineState.parentMap
+//@   havoccall collectRawHTML keeps inlineState.source, inlineState.root, inlineState.parentMap, Inline.kind
+//@   callsite (*inlineState).addToRoot: requires[shape] LeafShape($1, state.source)
+//@   callsite (*InlineParser).parseBackslash: requires[at] source[pos] == '\\'
+//@   loop 0: invariant[state] !isnil(state) && !isnil(dummy) && state.root == dummy && state.parentMap != nil && aliases(state.source, source) && len(state.source) == len(source)
+//@   loop 1: invariant[state] !isnil(state) && !isnil(dummy) && state.root == dummy && state.parentMap != nil && aliases(state.source, source) && len(state.source) == len(source)
+//@   loop 2: invariant[state] !isnil(state) && !isnil(dummy) && state.root == dummy && state.parentMap != nil && aliases(state.source, source) && len(state.source) == len(source)
+//@   nosafety index the cursor stays inside the unparsed run and the run inside Source (assumption A-C02-1, DESIGN 7.2)
+//@   nosafety slice the cursor stays inside the unparsed run and the run inside Source (assumption A-C02-1, DESIGN 7.2)
+//@   nosafety nil the unparsed nodes of a block are never nil (assumption A-NODEINV, C05)
+//@   nosafety range positions are bounded by the length of Source (assumption A-C02-1)
+//@   unclaimed dec the scanner's progress (every iteration consumes input) is not under contract here
+//@   serves C13
